@@ -279,7 +279,7 @@ def spec_c16(tier, seed):
             E2_MS,
             Cond('c16_setup', 'c_setup_content', parts=[{'pair': p, 'elen': 3, 'plen': [1, 1]} for p in pairs]
                  + [{'pair': [1, 5], 'elen': e, 'plen': pl} for e, pl in ((0, [0, 0]), (4, [3, 3]))], timeout=400),
-            Cond('c16_setup', 'c_setup_first', parts=[{'kind': k} for k in range(5)], timeout=400),
+            Cond('c16_setup', 'c_setup_first', parts=[{'kind': k, 'leasepub': 0} for k in range(5)] + [{'kind': k, 'leasepub': lp} for lp in (1, 2) for k in ((0, 4) if q else range(5))], timeout=400),
             Cond('c16_setup', 'c_server_setup', parts=[{'elen': 3, 'plen': [1, 1]}, {'elen': 0, 'plen': [0, 2]}], timeout=400),
         ],
         explanation='(E2) the current source of to_milliseconds is translated from its AST into integer formulas with an exact '
@@ -483,6 +483,10 @@ def _hist_parts(k, plen, extra_cfgs, roles=None, base=None):
                 continue
             if cfg.get('req_follows') and role.endswith('_req'):
                 continue
+            if (cfg.get('resp_no_pub') or cfg.get('req_complete')) and role != 'ch_resp':
+                continue
+            if cfg.get('early_first') and not role.endswith('_req'):
+                continue
             na = _ALPHA_N[role] + (1 if cfg.get('lease') else 0)
             prefixes = [[]]
             # channel roles have the largest alphabets and three symbolic flags per PAYLOAD: one more fixed event
@@ -531,7 +535,7 @@ def spec_c07(tier, seed):
     return _hist_spec('c07_termination', tier,
                       'Monitor: every subscriber the library drives sees on_subscribe . on_next* . at most one terminal, nothing '
                       'after it; the request-response awaitable is resolved exactly once and never left pending.',
-                      [{'frag': True}])
+                      [{'frag': True}, {'resp_no_pub': True, 'req_complete': True}])
 
 
 def spec_c08(tier, seed):
@@ -549,7 +553,7 @@ def _spec_c08(tier, seed):
                       'before it (SETUP first and once, parity, streams begin with a request, allowed types per model and role, '
                       'positive initial request-n incl. n <= 0 refused by the API, nothing after own COMPLETE/ERROR/CANCEL or after '
                       'both directions completed, connection frames on stream 0 only).',
-                      [{'lease': True}, {'frag': True}])
+                      [{'lease': True}, {'frag': True}, {'frag': True, 'early_first': True}])
 
 
 def spec_c09(tier, seed):
@@ -574,7 +578,8 @@ def spec_c10(tier, seed):
                       'Monitor at quiescence: if the interaction has terminated by the protocol definition, no stream-table entry and no '
                       'partial frame remain for it (also with a FOLLOWS fragment pending), a new request on the id is accepted, and both '
                       'tables are empty once the bystander finished.',
-                      [{'frag': True}, {'req_follows': True}], base={'probe_reuse': True})
+                      [{'frag': True}, {'req_follows': True}, {'resp_no_pub': True, 'req_complete': True}, {'resp_no_pub': True}, {'req_complete': True}],
+                      base={'probe_reuse': True})
 
 
 def spec_c11(tier, seed):
@@ -679,6 +684,7 @@ def spec_c17(tier, seed):
     parts = []
     for cause in range(4):
         parts.append({'cause': cause, 'rounds': 1})
+        parts.append({'cause': cause, 'rounds': 1, 'close_raises': True})
         for p in pends:
             if q and (p[0] != p[1] or (cause == 2 and p[2] == 1)):
                 continue
@@ -693,7 +699,7 @@ def spec_c17(tier, seed):
                     'reconnect request, after SYMBOLIC idle and settle times (keep-alive ticks and time-out checks fall inside); 1..3 '
                     'consecutive reconnects. After each: old transport closed, pending requests failed exactly once, next transport '
                     'connected once, first frame a fresh SETUP (once), next stream id 1, KEEPALIVE flows again, a new request is answered.',
-        bounds=['4 causes x {0,1,2 pending: request-response, stream} x 2 moments; idle/settle times 0..2.5 s each (symbolic integers, us)',
+        bounds=['4 causes x {0,1,2 pending: request-response, stream} x 2 moments x old transport close() succeeding / raising; idle/settle times 0..2.5 s each (symbolic integers, us)',
                 '%s consecutive reconnects; %d partitions' % ('1-2' if q else '1-3', len(parts))],
         outside=['more than 3 consecutive reconnects, keep-alive/lifetime configurations other than 1 s / 3 s, providers that fail'],
         functions=['rsocket.rsocket_client.RSocketClient.reconnect', 'rsocket.rsocket_client.RSocketClient._reconnect_listener', 'rsocket.rsocket_client.RSocketClient.connect',
@@ -774,11 +780,11 @@ def spec_c01(tier, seed):
         if q:
             l1, mode = (pi + seed) % 4, (pi // 2 + seed) % 4
             for pace in (False, True):
-                parts.append({'kinds': kinds, 'l1': l1 if not pace else (l1 + 2) % 4, 'mode': mode if not pace else (mode + 2) % 4,
+                parts.append({'kinds': kinds, 'l1': l1 if not pace else (l1 + 2) % 4, 'mode': mode if pace else 4 + (pi % 2),
                               'l2': (pi + 1) % 4, 'pace': pace})
         else:
             for l1 in range(4):
-                for mode in range(4):
+                for mode in range(6):
                     parts.append({'kinds': kinds, 'l1': l1, 'mode': mode, 'l2': (l1 + mode + 1) % 4})
                     if kinds[0] != kinds[1]:
                         parts.append({'kinds': kinds[::-1], 'l1': l1, 'mode': mode, 'l2': (l1 + mode + 2) % 4})
@@ -786,7 +792,8 @@ def spec_c01(tier, seed):
         conds=[Cond('c01_e2e', 'c_end_to_end', parts=parts, timeout=900)],
         explanation='a real RSocketClient and a real RSocketServer on one virtual loop joined by a simulated link: TCP framing '
                     'over the real TransportTCP / StreamReader / FrameParser with re-chunked delivery (whole, or the first '
-                    'deliveries of one direction cut to 1 and 70 bytes so reads split length prefixes, headers and fragments), '
+                    'deliveries of one direction cut to 1 and 70 bytes so reads split length prefixes, headers and fragments, or with '
+                    'writers whose drain() suspends so that send queues build up), '
                     'or message framing through the real AbstractMessagingTransport glue; two concurrent interactions out of '
                     '{request-response, fire-and-forget, stream, channel, metadata-push} started by either side, payloads of four '
                     'length classes (1..3+ fragments at size 64) with a distinct byte pattern each, fragmentation on/off, '
@@ -794,7 +801,7 @@ def spec_c01(tier, seed):
                     'at the matching handler/subscriber exactly once, byte for byte, in order, nowhere else; each caller gets '
                     'its own response; nothing left open.',
         bounds=['all %d unordered pairs of interaction models (thorough: both orders); who initiates each (symbolic), fragmentation (symbolic), pacing (symbolic)' % len(pairs),
-                'length class of the first payload and link mode: %s; <= 2 elements per stream direction' % ('2 combinations per pair (rotating with the seed), one per pacing' if q else 'all 16 combinations per pair'),
+                'length class of the first payload and link mode: %s; <= 2 elements per stream direction' % ('2 combinations per pair (rotating with the seed), one per pacing' if q else 'all 24 combinations per pair'),
                 '%d partitions; on these paths every value is concrete once the selectors are branched on: the engine is an exhaustive enumerator of the bounded configuration space, the symbolic-data content of C01 sits in the lemmas it composes (C02, C03, C04, C05)' % len(parts)],
         outside=['more than two concurrent interactions, joint chunking of both directions, longer streams, other fragment sizes'],
         functions=['rsocket.rsocket_base.RSocketBase._sender', 'rsocket.rsocket_base.RSocketBase._receiver_listen', 'rsocket.rsocket_base.RSocketBase._handle_next_frame',
